@@ -114,6 +114,12 @@ func vh12Client(o *vhOut, id int, reqMsize uint32, script []vh12Reply) {
 	}
 	var later []frameT
 	srvDone := make(chan struct{})
+	// net.Pipe is synchronous: a peer that stops reading would block the fake server for ever
+	swrite := func(b []byte) bool {
+		s.SetWriteDeadline(time.Now().Add(3 * time.Second))
+		_, err := s.Write(b)
+		return err == nil
+	}
 	go func() {
 		defer close(srvDone)
 		defer s.Close()
@@ -135,34 +141,50 @@ func vh12Client(o *vhOut, id int, reqMsize uint32, script []vh12Reply) {
 				i++
 				switch r.Kind {
 				case "err":
-					s.Write(vhFrame(byte(msgRlerror), tag, vhLE32(r.Errno)))
+					if !swrite(vhFrame(byte(msgRlerror), tag, vhLE32(r.Errno))) {
+						return
+					}
 				case "conn":
 					return
 				default:
 					b := vhLE32(r.MSize)
 					b = vhPutString(b, r.version)
-					s.Write(vhFrame(byte(msgRversion), tag, b))
+					if !swrite(vhFrame(byte(msgRversion), tag, b)) {
+						return
+					}
 				}
 			case msgTattach:
 				// qid[13]
-				s.Write(vhFrame(byte(msgRattach), tag, make([]byte, 13)))
+				if !swrite(vhFrame(byte(msgRattach), tag, make([]byte, 13))) {
+					return
+				}
 			case msgTwrite:
 				cnt := binary.LittleEndian.Uint32(body[12:])
 				later = append(later, frameT{int(typ), uint32(len(body) + 7), cnt})
-				s.Write(vhFrame(byte(msgRwrite), tag, vhLE32(cnt)))
+				if !swrite(vhFrame(byte(msgRwrite), tag, vhLE32(cnt))) {
+					return
+				}
 			case msgTread:
 				cnt := binary.LittleEndian.Uint32(body[12:])
 				later = append(later, frameT{int(typ), uint32(len(body) + 7), cnt})
 				b := append(vhLE32(cnt), make([]byte, cnt)...)
-				s.Write(vhFrame(byte(msgRread), tag, b))
+				if !swrite(vhFrame(byte(msgRread), tag, b)) {
+					return
+				}
 			case msgTreaddir:
 				cnt := binary.LittleEndian.Uint32(body[12:])
 				later = append(later, frameT{int(typ), uint32(len(body) + 7), cnt})
-				s.Write(vhFrame(byte(msgRreaddir), tag, vhLE32(0)))
+				if !swrite(vhFrame(byte(msgRreaddir), tag, vhLE32(0))) {
+					return
+				}
 			case msgTclunk:
-				s.Write(vhFrame(byte(msgRclunk), tag, nil))
+				if !swrite(vhFrame(byte(msgRclunk), tag, nil)) {
+					return
+				}
 			default:
-				s.Write(vhFrame(byte(msgRlerror), tag, vhLE32(uint32(linux.ENOSYS))))
+				if !swrite(vhFrame(byte(msgRlerror), tag, vhLE32(uint32(linux.ENOSYS)))) {
+					return
+				}
 			}
 		}
 	}()
@@ -180,16 +202,25 @@ func vh12Client(o *vhOut, id int, reqMsize uint32, script []vh12Reply) {
 		res["msize"] = cl.messageSize
 		res["payload"] = cl.payloadSize
 		// let it send things
-		if f, aerr := cl.Attach(""); aerr == nil {
-			n := int(cl.payloadSize)*2 + 17
-			if n > 3<<20 {
-				n = 3 << 20
+		opsDone := make(chan struct{})
+		go func() {
+			defer close(opsDone)
+			if f, aerr := cl.Attach(""); aerr == nil {
+				n := int(cl.payloadSize)*2 + 17
+				if n > 3<<20 {
+					n = 3 << 20
+				}
+				f.WriteAt(make([]byte, n), 0)
+				f.ReadAt(make([]byte, n), 5)
+				f.Readdir(0, 0xffffffff)
+				f.Readdir(0, 100)
+				f.Close()
 			}
-			f.WriteAt(make([]byte, n), 0)
-			f.ReadAt(make([]byte, n), 5)
-			f.Readdir(0, 0xffffffff)
-			f.Readdir(0, 100)
-			f.Close()
+		}()
+		select {
+		case <-opsDone:
+		case <-time.After(20 * time.Second):
+			res["hang"] = true // a call did not return; closing the connection below releases it
 		}
 	case errors.Is(err, ErrVersionsExhausted):
 		res["result"] = "exhausted"
